@@ -123,7 +123,7 @@ def replay(v, workdir):
 EV = ["cres", "cev"]
 PROPS = {
     "C01": dict(run=gateway_run(["stream", "gc", "query", "win-load", "win-query", "win-alias", "win-gc", "win-reset1", "win-reset2"], EV)),
-    "C02": dict(run=tables.combine(gateway_run(["gc", "stream", "win-gc", "win-load"], EV), tables.tables_run(["gc"], "collector"))),
+    "C02": dict(run=tables.combine(gateway_run(["gc", "stream", "win-gc", "win-load", "ready"], EV), tables.tables_run(["gc"], "collector"))),
     "C03": dict(run=gateway_run(["stream", "access", "win-load", "win-recheck", "win-reset2"], ["cev"])),
     "C07": dict(run=gateway_run(["gc", "access", "win-gc", "win-recheck", "thr-ref1"], ["cres"])),
     "C08": dict(run=gateway_run(["gc", "cache", "win-gc", "win-evict"], ["cres"])),
@@ -163,7 +163,7 @@ TEXT = {
     "C05": _t("Every call forwarded to a service must be backed by a valid grant allowing the method; every access/call/auth request must carry the connection's current token.", TECH),
     "C06": _t("spec/SubQueue.tla is model-checked for TriggerKept / DeferredOnlyWhileQueueing / Rechecked (a trigger is never forgotten and leads to an access request or the end of the subscription); SubQueueTrace.tla checks on every gateway trace that a re-check is never started while queueing, is deferred only while queueing and that the deferred flag equals the model's. At the boundary, after each processed trigger on a directly subscribed resource: an access request sent after the trigger follows, nothing handed over after the trigger is delivered before the verdict, a refusal ends in an unsubscribe event with the reason; after a token change every direct subscription is re-checked.",
               "TLC exhaustive on SubQueue.tla + per-note conformance (SubQueueTrace.tla) + observer rules on gateway traces"),
-    "C07": _t("Pending-request ledger: no response for an unknown id, none twice, none missing at quiescence, error shape. spec/SubReady.tla (the ready callbacks that release responses: OnReady / onLoaded / collectRefs / Loaded / doneLoading over every reference graph on three resources, loads in any order, failing loads) is model-checked exhaustively: a callback fires exactly once, only when everything reachable is loaded, and always eventually; the rdy* / subRef* notes of every gateway trace are replayed against SubReadyOps by SubReadyTrace.tla.",
+    "C07": _t("Pending-request ledger: no response for an unknown id, none twice, none missing at quiescence, error shape. spec/SubReady.tla (the ready callbacks that release responses: OnReady / onLoaded / collectRefs / Loaded / doneLoading over every reference graph on three resources, loads in any order, failing loads) is model-checked exhaustively: a callback fires exactly once, only when everything reachable is loaded, and always eventually; the rdy* / subRef* notes of every gateway trace are replayed against SubReadyOps by SubReadyTrace.tla; family ready: behaviours of SubReady.tla itself (simulated by TLC through SubReadyGen.tla: sampled reference graphs on four resources, requests, loads completing or failing in any order, references brought by events) are replayed on the real gateway.",
               "TLC exhaustive on SubReady.tla + TLC-generated schedules replayed on the real gateway, traces validated by the observer spec (incl. the SubReadyTrace micro-step replay)"),
     "C08": _t("spec/DirectCount.tla states the counter design (count at receipt, give back on failure / get, limit) with Exact, UnsubRule and LimitHeld; TLC shows them for the repaired design and shows UnsubRule violated for the code-shaped variant - finding KF-H as a named deviation. On the real gateway: per (connection, rid) counter of confirmed direct subscriptions compared with the gateway's snapshot at quiescence; every unsubscribe outcome predicted from the counter; the limit-256 schedule.",
               "TLC exhaustive on DirectCount.tla (design, both variants) + TLC-generated schedules replayed on the real gateway, traces validated by the observer spec"),
@@ -487,7 +487,7 @@ def directcount_model(ctx):
 
 PROPS["C11"] = dict(run=tables.combine(connqueue_model, gateway_run(["cache", "access", "win-evict", "thr-reset1"], ["close", "sockClosed"], also=("C09",))))
 
-PROPS["C07"] = dict(run=tables.combine(subready_model, gateway_run(["gc", "access", "win-gc", "win-recheck", "thr-ref1"], ["cres"])))
+PROPS["C07"] = dict(run=tables.combine(subready_model, gateway_run(["gc", "access", "win-gc", "win-recheck", "thr-ref1", "ready"], ["cres"])))
 
 PROPS["C08"] = dict(run=tables.combine(directcount_model, gateway_run(["gc", "cache", "access", "win-gc", "win-evict"], ["cres"])))
 
